@@ -575,11 +575,18 @@ def _segmentation_bundle():
             ('C03.S5', _c05.r5_totality)]
 
 
+def _separators(ctx, rule):
+    # a training password that contains a line separator of the ruleset readers is written to disk and read back as two broken
+    # records: the ruleset no longer reproduces it (or no longer loads at all) - seed C03-g
+    from . import c07
+    return c07.r1_separator_inclusion(ctx, rule)
+
+
 def rules(tier):
     return [('C03.R1', r1_tag_chain), ('C03.R2', lambda c, r: r2_mask_producer(c, r, lower_only=False)), ('C03.R3', r3_mask_insertion),
             ('C03.R4', lambda c, r: c04.r3_mask_slices(c, r, strict_char_map=False)), ('C03.R5', c04.r2_structural_recursion), ('C03.R6', c04.r1_dispatch),
             ('C03.R7', c01.r8_uniform_scale), ('C03.R8', _renorm),
-            ('C03.R9', r9_counted_value_is_segment), ('C03.R10', c01.r4_prob_pt_coupling), ('C03.R11', _adoption)] + _loader_bundle() + _segmentation_bundle() + []
+            ('C03.R9', r9_counted_value_is_segment), ('C03.R10', c01.r4_prob_pt_coupling), ('C03.R11', _adoption), ('C03.R12', _separators)] + _loader_bundle() + _segmentation_bundle() + []
 
 
 META = {
